@@ -100,7 +100,7 @@ theorem pushNone_interp : ∀ (b b' : B) (dt : DataType) (n : Bool) (md : Metada
     · simp [fail] at h
     obtain ⟨idx', h1, _⟩ := (bind_ok _ _ _).1 h
     simp only [Shape] at hs
-    obtain ⟨⟨kdt, vdt, rfl⟩, hint, hnl, _⟩ := hs
+    obtain ⟨⟨kdt, vdt, rfl, _⟩, hint, hnl, _⟩ := hs
     cases idx with
     | leaf p k v vals' =>
       simp only [pushNone, ctx_ok] at h1
@@ -149,7 +149,7 @@ theorem dict_push_row (ext : Ext) {p : String} {idx vals : B} {index : List Stri
   simp only at h
   have hw' := hwf
   simp only [WFB] at hw'
-  have hdv := hw'.2.2.2.2.2 hu
+  have hdv := hw'.2.2.2.2.2.1 hu
   split at h
   · rename_i s hs'
     refine ⟨s, hs', ?_⟩
@@ -176,6 +176,20 @@ theorem dict_push_row (ext : Ext) {p : String} {idx vals : B} {index : List Stri
       simp only [dictRow, Int.toNat_natCast, List.getD_eq_getElem?_getD, ← hl, List.getElem?_append_right (Nat.le_refl _),
         Nat.sub_self]
       rfl
+  · simp [notSupported, fail] at h
+
+/-- a dictionary whose value builder refuses strings refuses every scalar (its index is empty: `DictVals`) -/
+theorem dict_push_refused (ext : Ext) {p : String} {idx vals : B} {index : List String} {x : SVal} {b' : B}
+    (hidx : vals.refusesStr = true → index = []) (hr : vals.refusesStr = true)
+    (h : pushScalar ext (.dictionary p idx vals index) x = .ok b') : False := by
+  have hi := hidx hr
+  subst hi
+  unfold pushScalar at h
+  simp only at h
+  split at h
+  · simp only [indexOfName, indexOfName.go] at h
+    obtain ⟨vals', h1, _⟩ := (bind_ok _ _ _).1 h
+    exact pushScalar_refusesStr ext hr h1
   · simp [notSupported, fail] at h
 
 /-- the row a scalar call appends is the specified one (`ViewSmall b'`: only looked at by bytes-view builders) -/
@@ -276,9 +290,11 @@ theorem pushScalar_interp (ext : Ext) : ∀ (b : B) (x : SVal) (b' : B) (dt : Da
     · simp [notSupported, fail] at h
   | .dictionary p idx vals index, x, b', dt, n, md, lv, hwf, hs, h, hd, _ => by
     simp only [Shape] at hs
-    obtain ⟨⟨kdt, vdt, rfl⟩, hil, _, hu⟩ := hs
-    obtain ⟨s, hs', rfl⟩ := dict_push_row ext hwf hil hu h hd
-    exact ⟨by simp only [interpScalar, hs'], rfl⟩
+    obtain ⟨⟨kdt, vdt, rfl, hsv⟩, hil, _, hu⟩ := hs
+    rcases hu with hu | hr
+    · obtain ⟨s, hs', rfl⟩ := dict_push_row ext hwf hil hu h hd
+      exact ⟨by simp only [interpScalar, hs', interpDictStr_utf8 ext s hsv hu], rfl⟩
+    · exact (dict_push_refused ext (DictVals.of_wf hwf).2 hr h).elim
   | .list _ _ _ _ _ _, x, b', _, _, _, _, _, _, h, _, _ => by simp [pushScalar, notSupported, fail] at h
   | .fixedSizeList _ _ _ _ _ _ _, x, b', _, _, _, _, _, _, h, _, _ => by simp [pushScalar, notSupported, fail] at h
   | .map _ _ _ _ _ _, x, b', _, _, _, _, _, _, h, _, _ => by simp [pushScalar, notSupported, fail] at h
